@@ -8,6 +8,7 @@ import re
 
 import common
 import gen
+import thm_instances
 from common import history_line, parse_history_output, compare_history, model_run, impl_run
 
 TRUSTED_BASE = [
@@ -1133,7 +1134,7 @@ class ExpectSpec(Spec):
 
     def curated(self):
         out = []
-        for src, mode, exp, kind in self.CUR:
+        for src, mode, exp, kind in list(self.CUR) + thm_instances.instances(self.cls_prefix):
             c = H([call(src, safeMode=mode, reset=True, cb=True)])
             c['meta'] = {'expect': exp, 'kind': kind}
             out.append(c)
@@ -1320,7 +1321,7 @@ class C11(Spec):
     def search_cases(self, ctx, boost):
         rng = ctx.rng('S')
         cur = []
-        for src, exp, kind in self.CUR:
+        for src, exp, kind in list(self.CUR) + thm_instances.instances('C11'):
             c = H([call(src, safeMode=0, reset=True, cb=True)])
             c['meta'] = {'expect': exp, 'kind': kind, 'defined': []}
             cur.append(c)
